@@ -37,7 +37,7 @@ def main() -> int:
         for n in sorted(os.listdir(os.path.join(VERIF, "seeded"))):
             if only in n and os.path.exists(os.path.join(VERIF, "seeded", n, "patch.diff")):
                 meta = json.load(open(os.path.join(VERIF, "seeded", n, "meta.json")))
-                work.append(("seeded", n, os.path.join(VERIF, "seeded", n, "patch.diff"), meta.get("property")))
+                work.append(("seeded", n, os.path.join(VERIF, "seeded", n, "patch.diff"), (meta.get("property"), sorted(meta.get("reported_by", {})))))
     if do_b and os.path.isdir(os.path.join(VERIF, "benign")):
         for n in sorted(os.listdir(os.path.join(VERIF, "benign"))):
             if only in n and os.path.exists(os.path.join(VERIF, "benign", n, "patch.diff")):
@@ -51,7 +51,11 @@ def main() -> int:
             rb = r["reported_by"]
             broken = {k: v for k, v in rb.items() if v["rc"] not in (0, 1)}
             if kind == "seeded":
-                ok = prop in rb and rb[prop]["rc"] == 1 if prop in props else True
+                prop, expected = prop
+                # the variant's own property, or -- when another property's check is the one that sees it -- that one
+                cands = [q for q in [prop] + list(expected) if q in props]
+                ok = any(q in rb and rb[q]["rc"] == 1 for q in cands) if cands else True
+                prop = next((q for q in cands if q in rb and rb[q]["rc"] == 1), prop)
                 others = sorted(k for k in rb if k != prop)
                 print(f"{'ok    ' if ok and not broken else 'MISSED' if not ok else 'BROKEN'} seeded {name}: {prop} -> {[l.split('instance=')[-1][:70] for l in rb.get(prop, {}).get('lines', [])][:2]}" + (f" (also {others})" if others else ""))
                 bad += 0 if ok and not broken else 1
